@@ -18,7 +18,7 @@ from harness import text as T
 from harness import textcheck as TC
 from props import _text as X
 
-PROPS = ["Octave.Props.C03", "Octave.Props.C03flat", "Octave.Props.C03expr", "Octave.Props.C01blocks", "Octave.Props.C01sections", "Octave.Props.C01lists", "Octave.Props.C01unified"]
+PROPS = ["Octave.Props.C03", "Octave.Props.C03flat", "Octave.Props.C03expr", "Octave.Props.C01blocks", "Octave.Props.C01sections", "Octave.Props.C01lists", "Octave.Props.C01unified", "Octave.Props.C03indent", "Octave.Props.C03tree"]
 FREEDOMS = ["alias", "space", "indent", "blank", "trailing_space", "layout", "quotes", "multiword", "constructor", "end"]
 CLASSES = {}
 
@@ -51,18 +51,169 @@ def spell_chunk(args):
     return out
 
 
+# --------------------------------------------------------------------------------------------------
+# tool route (octave_write, strict and lenient): documents that END IN A FENCE once the optional ===END=== is omitted
+# --------------------------------------------------------------------------------------------------
+class _EndlessSpelling_toolroute(G.Spelling):
+    """a spelling whose `end` site always takes the lenient option (===END=== omitted); every other site as configured."""
+
+    def flip(self, kind):
+        return True if kind == "end" else super().flip(kind)
+
+
+def _asg_toolroute(k, v, lead=()):
+    return {"t": "assign", "lead": list(lead), "k": k, "v": v, "trail": None}
+
+
+def _zone_toolroute(lines, tag=None, fence=3):
+    return {"t": "zone", "lines": list(lines), "tag": tag, "fence": fence}
+
+
+def fence_edge_models_toolroute():
+    """[(label, model)] — the envelope line is kept (text without one is wrapped by the tools as plain text: not a C03 freedom);
+    the LAST element is a literal zone, so that with ===END=== omitted the text ends in a closing fence: zone at top level
+    (column-0 fence), as a block child, as a bare zone, as a section child; every fence shape (plain, tagged, longer run with
+    shorter runs inside, empty, content that looks like a document); preceded by nothing / an assignment / META + a nested zone /
+    another top-level zone / fence look-alikes in a comment and a string.  Plus documents whose FIRST body line opens a zone."""
+    base = lambda: {"name": "RUNBOOK", "gv": None, "fm": None, "meta": [], "sep": False, "nodes": [], "trailing": []}  # noqa: E731
+    A, Z = _asg_toolroute, _zone_toolroute
+    zones = [("plain", Z(["make check | tee log"])), ("tagged", Z(["make all", "  x -> y"], "sh")), ("long-fence", Z(["```", "x", "```py"], None, 4)),
+             ("empty", Z([])), ("looks-like-doc", Z(["===END===", "K::1", "// c"], "oct")), ("tab+trailing", Z(["\ttab", "trailing  ", ""], "json", 5))]
+    owner = lambda: A("OWNER", {"t": "word", "v": "platform"})  # noqa: E731
+    heads = [("alone", lambda: ([], [])),
+             ("after-assign", lambda: ([], [owner()])),
+             ("after-meta+nested-zone", lambda: ([["TYPE", {"t": "word", "v": "GUIDE"}]],
+                                                 [{"t": "block", "lead": [], "k": "STEPS", "target": None, "orphan": [],
+                                                   "ch": [A("INTENT", {"t": "expr", "operands": ["build", "test", "ship"], "ops": ["→", "→"]}), A("SCRIPT", Z(["make all"], "sh"))]},
+                                                  owner()])),
+             ("after-top-zone", lambda: ([], [A("FIRST", Z(["a", "b"], "python")), A("MID", {"t": "int", "v": 1})])),
+             ("after-fence-lookalikes", lambda: ([], [A("K", {"t": "qstr", "v": "``` not a fence"}, lead=["``` in a comment"])]))]
+    out = []
+    for hn, hf in heads:
+        for zn, z in zones:
+            meta, nodes = hf()
+            d = base(); d["meta"] = meta; d["nodes"] = nodes + [A("VERIFY", z)]
+            out.append((f"top-zone-last:{hn}:{zn}", d))
+    for zn, z in zones[:4]:
+        d = base(); d["nodes"] = [owner(), {"t": "block", "lead": [], "k": "B", "target": None, "orphan": [], "ch": [A("X", {"t": "int", "v": 1}), A("VERIFY", z)]}]
+        out.append((f"block-child-zone-last:{zn}", d))
+        d = base(); d["nodes"] = [owner(), {"t": "block", "lead": [], "k": "B", "target": "T", "orphan": [], "ch": [A("X", {"t": "int", "v": 1}), {"t": "bzone", "lead": [], "v": z}]}]
+        out.append((f"bare-zone-last:{zn}", d))
+        d = base(); d["nodes"] = [owner(), {"t": "section", "lead": [], "id": "1", "name": "S", "ann": None, "ch": [A("VERIFY", z)]}]
+        out.append((f"section-child-zone-last:{zn}", d))
+        d = base(); d["nodes"] = [A("VERIFY", z), owner()]
+        out.append((f"top-zone-first:{zn}", d))
+    return out
+
+
+# (name, freedoms toggled besides the forced omission of ===END===, probability per site, write modes)
+FENCE_EDGE_SPELLINGS_TOOLROUTE = [("end", set(), 0.0, (True, False)), ("end+blank+trailing_space", {"blank", "trailing_space"}, 0.9, (True, False)),
+                                  ("end+all", set(FREEDOMS) | {"body_indent"}, 0.5, (True,))]
+
+
+def fence_edge_chunk_toolroute(args):
+    """worker: [(tag, label, model | None, index)] -> records {label, spelling, lenient, ctext, text, c0, status:[canonical, lenient],
+    bytes:[canonical, lenient]} from octave_write on the real code (model None: generated from (tag, index))."""
+    from octave_mcp.core.emitter import emit
+    from octave_mcp.core.parser import parse
+    from octave_mcp.mcp.write import WriteTool
+    out = []
+    with tempfile.TemporaryDirectory() as td:
+        for (tag, label, d, mi) in args:
+            rng = random.Random(f"{tag}:{mi}")
+            if d is None:
+                # a generated content-model document whose last element is made a literal zone (top level / block child), or that has
+                # a top-level zone both first and last
+                d = G.gen_doc(rng)
+                d["trailing"] = []
+                z, r = G.gen_zone(rng), rng.random()
+                if r < 0.6:
+                    d["nodes"].append(_asg_toolroute("ZTAIL", z)); label = "gen:top-zone-last"
+                elif r < 0.8:
+                    d["nodes"].append({"t": "block", "lead": [], "k": "ZB", "target": None, "orphan": [], "ch": [_asg_toolroute("ZTAIL", z)]}); label = "gen:block-child-zone-last"
+                else:
+                    d["nodes"].insert(0, _asg_toolroute("ZHEAD", z)); d["nodes"].append(_asg_toolroute("ZTAIL", G.gen_zone(rng))); label = "gen:zone-first-and-last"
+            ctext, _ = G.render(d, G.Spelling(rng, canonical=True))
+            try:
+                c0 = emit(parse(ctext))
+            except Exception as e:  # noqa: BLE001
+                out.append({"label": label, "ctext": ctext, "canonical_rejected": f"{type(e).__name__}: {str(e)[:80]}"})
+                continue
+            for (sn, only, p, modes) in FENCE_EDGE_SPELLINGS_TOOLROUTE:
+                ltext, _ = G.render(d, _EndlessSpelling_toolroute(rng, p=p, only=set(only)))
+                for lenient in modes:
+                    rec = {"label": label, "spelling": sn, "lenient": lenient, "ctext": ctext, "text": ltext, "c0": c0, "status": [], "bytes": []}
+                    for k, t in enumerate((ctext, ltext)):
+                        path = os.path.join(td, f"f{mi}_{k}.oct.md")
+                        if os.path.exists(path):
+                            os.remove(path)
+                        try:
+                            w = asyncio.run(WriteTool().execute(target_path=path, content=t, lenient=lenient))
+                            st = w.get("status")
+                            rec["status"].append(st if st == "success" else f"{st}: {TC.short(w.get('errors'))}")
+                            rec["bytes"].append(open(path, "rb").read().decode("utf-8", "replace") if st == "success" and os.path.exists(path) else None)
+                        except BaseException as e:  # noqa: BLE001
+                            rec["status"].append(f"raised {type(e).__name__}: {str(e)[:80]}")
+                            rec["bytes"].append(None)
+                    out.append(rec)
+    return out
+
+
+def fence_edge_toolroute(ctx, findings):
+    """octave_write (lenient and strict) on the fence-edge family: the bytes written for the spelling that omits ===END=== (alone;
+    with blank lines / trailing spaces; with every other freedom) and for the canonical spelling must both be the canonical text
+    emit(parse(canonical spelling)), byte for byte, and the tool must not accept one spelling and refuse the other (lenient mode)."""
+    fixed = fence_edge_models_toolroute()
+    items = [(f"{ctx.seed}:fence-fixed", label, d, i) for i, (label, d) in enumerate(fixed)]
+    items += [(f"{ctx.seed}:fence-gen", None, None, i) for i in range(ctx.budget(40, 600))]
+    recs = [r for ch in vlib.pmap(fence_edge_chunk_toolroute, [items[i:i + 6] for i in range(0, len(items), 6)], chunksize=1) for r in ch]
+    for r in recs:
+        if "canonical_rejected" in r:
+            X.classify(ctx, findings, CLASSES, {"text": r["ctext"], "family": r["label"]}, f"canonical spelling not canonicalisable: {r['canonical_rejected']}", "canonical-spelling-rejected")
+            continue
+        entry = f"octave_write(lenient={str(r['lenient']).lower()})"
+        case = {"text": r["text"], "canonical_spelling": r["ctext"], "entry": entry, "family": r["label"], "freedoms": r["spelling"]}
+        ctx.case({"text": r["text"], "entry": entry})
+        ctx.count("fence-edge:" + (r["label"] if r["label"].startswith("gen:") else r["label"].split(":")[0]))
+        (s0, s1), (b0, b1) = r["status"], r["bytes"]
+        if s0.startswith("raised") or s1.startswith("raised"):
+            X.classify(ctx, findings, CLASSES, case, f"{entry}: {s0} / {s1}", "write-raises")
+            continue
+        for which, b in (("the canonical spelling", b0), ("the spelling that omits ===END===", b1)):
+            if b is not None and b != r["c0"]:
+                X.classify(ctx, findings, CLASSES, case, f"{entry} on {which} writes bytes that differ from the canonical text", "write-no-convergence",
+                           {"written": b, "canonical": r["c0"]})
+                break
+        if (b0 is None) != (b1 is None):
+            if r["lenient"]:
+                X.classify(ctx, findings, CLASSES, case, f"{entry} accepts one spelling and refuses the other: {s0} / {s1}", "write-accept-differs")
+            else:
+                ctx.count("fence-edge:strict-accept-differs")   # strict mode promises no acceptance of lenient spellings: counted only
+        elif b0 is None:
+            ctx.count("fence-edge:both-refused")
+
+
 def run(ctx: vlib.Ctx):
-    ctx.rule = ("content-model documents; per document the canonical spelling and 4 (thorough 8) lenient spellings: two with every freedom "
+    ctx.rule = ("content-model documents (seeded + fixed families: strings beginning/ending with a line break, blank or tab in every quoting style, "
+                "chained tensions, runs of empty lists, deep lists); per document the canonical spelling and 4 (thorough 8) lenient spellings: two with every freedom "
                 "toggled independently per site (p=0.35 / 0.8), the others exercising one freedom alone (alias, space, indent, blank, "
-                "trailing_space, layout, quotes, multiword, constructor, end) in rotation; distinct = distinct lenient text")
+                "trailing_space, layout, quotes, multiword, constructor, end) in rotation; distinct = distinct lenient text; octave_write (lenient and strict) on the "
+                "fence-edge family: documents whose last element is a literal zone (top level / block child / bare / section child, every fence shape) with "
+                "===END=== omitted, written bytes == canonical text")
     proj = X.setup(ctx, PROPS)
     findings = vlib.load_findings(ctx.prop)
     nsp = 8 if ctx.thorough else 4
     n = ctx.budget(500, 4000)
     args = [(ctx.seed, i, nsp) for i in range(n)]
     res = [r for ch in vlib.pmap(spell_chunk, [args[i:i + 25] for i in range(0, len(args), 25)], chunksize=1) for r in ch]
+    # fixed families (docgen.family_docs), same shape: canonical spelling + corner spellings (every site non-canonical x which
+    # alias x which triple-quoted form) + seeded spellings, restricted to the freedoms C03 documents
+    fargs = TC.family_args(ctx.seed, only=set(FREEDOMS) | {"body_indent"})
+    fam = [r for ch in vlib.pmap(TC.family_chunk, [fargs[i:i + 8] for i in range(0, len(fargs), 8)], chunksize=1) for r in ch]
+    fam_res = [{"model": r["model"], "ctext": r["spellings"][0]["text"], "c": r["spellings"][0]["ev"], "family": r["family"],
+                "spellings": [("family:" + r["family"], s["text"], s["ev"]) for s in r["spellings"][1:]]} for r in fam]
     texts, impl_c1 = [], []
-    for r in res:
+    for r in res + fam_res:
         c0 = r["c"].get("c1")
         if c0 is None:
             X.classify(ctx, findings, CLASSES, {"text": r["ctext"], "model": r["model"]}, f"canonical spelling not canonicalisable: {TC.short(r['c'])}", "canonical-spelling-rejected")
@@ -90,15 +241,17 @@ def run(ctx: vlib.Ctx):
             X.corr(ctx, {"text": t}, "canonical text", m, c1)
     # octave_write(lenient=true): file bytes for a lenient spelling == file bytes for the canonical spelling
     from octave_mcp.mcp.write import WriteTool
+    # (family members whose class lives in the string / operator spellings go through the tool too, each in two corner spellings)
+    wpairs = [(r, 0) for r in res[: ctx.budget(80, 800)]] + [(r, j) for r in fam_res if r["family"] in ("edge-strings", "chained-tension") for j in (0, 1)]
     with tempfile.TemporaryDirectory() as td:
-        for k, r in enumerate(res[: ctx.budget(80, 800)]):
+        for k, (r, j) in enumerate(wpairs):
             if r["c"].get("c1") is None:
                 continue
             try:
                 p0, p1 = os.path.join(td, f"a{k}.oct.md"), os.path.join(td, f"b{k}.oct.md")
                 w0 = asyncio.run(WriteTool().execute(target_path=p0, content=r["ctext"], lenient=True))
-                w1 = asyncio.run(WriteTool().execute(target_path=p1, content=r["spellings"][0][1], lenient=True))
-                case = {"text": r["spellings"][0][1], "canonical_spelling": r["ctext"], "entry": "octave_write(lenient=true)"}
+                w1 = asyncio.run(WriteTool().execute(target_path=p1, content=r["spellings"][j][1], lenient=True))
+                case = {"text": r["spellings"][j][1], "canonical_spelling": r["ctext"], "entry": "octave_write(lenient=true)"}
                 ctx.case({"text": case["text"], "entry": "octave_write"})
                 if w0.get("status") == "success" and w1.get("status") == "success":
                     b0, b1 = open(p0, "rb").read(), open(p1, "rb").read()
@@ -111,5 +264,6 @@ def run(ctx: vlib.Ctx):
                     X.classify(ctx, findings, CLASSES, case, f"octave_write accepts one spelling and refuses the other: {TC.short(w0.get('errors'))} / {TC.short(w1.get('errors'))}", "write-accept-differs")
             except BaseException as e:  # noqa: BLE001
                 X.classify(ctx, findings, CLASSES, {"text": r["ctext"]}, f"octave_write raised {type(e).__name__}: {str(e)[:80]}", "write-raises")
+    fence_edge_toolroute(ctx, findings)
     ctx.assumptions = ["the strict-profile recogniser tools/harness/strictprofile.py is written from the property statement (independent of the emitter)",
                        "proved: emitter-side facts (Props/C03), two spaces per level for block trees (C01blocks), convergence of every whitespace / quote / triple-quote / omitted-END spelling of flat documents (C03flat); of every ASCII-alias spelling of expressions (C03expr), of list layouts (C01lists), of # section markers (C01sections); spellings inside nested documents are decided by the convergence search"]
